@@ -165,6 +165,19 @@ class ndarray(object):
         b = self.buf
         return [b[i] for i in self.idx.ravel().tolist()]
 
+    @staticmethod
+    def _new_f(cells, shape, kind):
+        """like _new, but stored column-major (Fortran order) - what numpy.asfortranarray / a transposed raster is"""
+        cells = list(cells)
+        shape = tuple(shape)
+        if len(shape) < 2:
+            return ndarray._new(cells, shape, kind)
+        idx = _np.arange(len(cells)).reshape(shape[::-1]).T
+        buf = [None] * len(cells)
+        for p_, c in zip(idx.ravel().tolist(), cells):
+            buf[p_] = c
+        return ndarray(buf, idx, kind)
+
     @property
     def shape(self):
         return self.idx.shape
@@ -201,13 +214,24 @@ class ndarray(object):
             axes = tuple(axes[0])
         return self._view(self.idx.transpose(*axes))
 
-    def reshape(self, *shape):
+    def _relayout(self, new_idx):
+        """numpy gives a VIEW when the requested layout can be expressed on the existing memory and a COPY otherwise; the
+        index array has the same memory layout as the data it stands for, so numpy's own answer for it is the answer"""
+        if _np.shares_memory(new_idx, self.idx) or new_idx.size == 0:
+            return self._view(new_idx)
+        return ndarray._new([self.buf[i] for i in new_idx.ravel().tolist()], new_idx.shape, self.kind)
+
+    def reshape(self, *shape, **kw):
         if len(shape) == 1 and isinstance(shape[0], (list, tuple)):
             shape = tuple(shape[0])
-        return self._view(self.idx.reshape(shape))
+        return self._relayout(self.idx.reshape(shape, order=kw.get('order', 'C')))
 
-    def ravel(self):
-        return self._view(self.idx.ravel())
+    def ravel(self, order='C'):
+        return self._relayout(self.idx.ravel(order=order))
+
+    @property
+    def flags(self):
+        return self.idx.flags
 
     def __iter__(self):
         for i in range(len(self)):
